@@ -294,6 +294,40 @@ def run(chk):
             used = {p for p in evalp if re.search(r"\b%s\.derivative\(" % re.escape(p), show(lp["body"]))}
             if used != set(evalp) and f["n"] not in ("max", "min", "abs"):
                 chk.violation(r_m, key + ":args", "%s ignores the derivatives of argument(s) %s" % (f["n"], sorted(set(evalp) - used)), f["file"], lp["l"])
+    # a result that starts as a copy of an argument carries that argument's derivatives: changing only its value is
+    # wrong unless the derivatives are rewritten too (loop over all slots, clearDerivatives, or assignment of a scalar)
+    n_copy = 0
+    for f in fm.fns:
+        if not f["file"].endswith("Math.hpp") or not f.get("body") or f.get("cls"):
+            continue
+        evalp = {p["n"] for p in f["params"] if "Evaluation" in p["t"]}
+        if not evalp:
+            continue
+        for d in [n for n in walk(f["body"]) if n["k"] == "Decl"]:
+            for v in d["vars"]:
+                i = v.get("init")
+                if i is None or "Evaluation" not in (v.get("t") or ""):
+                    continue
+                src = [x["n"] for x in walk(i) if x["k"] == "Ref" and x["n"] in evalp]
+                if not src:
+                    continue
+                # the statements that follow the declaration in its own block
+                blocks = [b for b in walk(f["body"]) if b["k"] == "Block" and d in b["c"]]
+                after = blocks[0]["c"][blocks[0]["c"].index(d) + 1:] if blocks else []
+                txt = " ".join(show(x) for x in after)
+                name = v["n"]
+                sets_value = re.search(r"\b%s\.setValue\(" % re.escape(name), txt) is not None
+                rewrites = (re.search(r"\b%s\.setDerivative\(" % re.escape(name), txt) is not None or
+                            re.search(r"\b%s\.clearDerivatives\(" % re.escape(name), txt) is not None or
+                            re.search(r"\(%s [-+*/]?= " % re.escape(name), txt) is not None)
+                if not sets_value:
+                    continue
+                n_copy += 1
+                key = "%s(%s):%s" % (f["n"], ",".join(p["t"] for p in f["params"]), name)
+                chk.instance(r_m, key + ":copy", sample=dict(function=f["n"], result=name, copy_of=src[0], sets_value=True, rewrites_derivatives=rewrites))
+                if not rewrites:
+                    chk.violation(r_m, key + ":copy", "%s: `%s` is a copy of `%s` whose value is then replaced (setValue) while its derivatives are neither rewritten slot by slot nor cleared: the result keeps the derivatives of %s" % (f["n"], name, src[0], src[0]), f["file"], d["l"])
+    chk.extra["math_results_copied_from_argument"] = n_copy
     chk.level = "translation_validation"
     chk.extra.update(programs=programs, disagreements_checked=disagreements,
                      samples=samples or [dict(note="no multi-statement members sampled")])
